@@ -978,6 +978,13 @@ def _gen_qr(tp, a):
     return {}
 
 
+def _gen_svd(tp, a):
+    # NumPy evaluates the reduced SVD of any 2-d matrix, wide ones included (cubed transposes them)
+    if a.ndim != 2 or a.dtype.kind != "f" or a.size == 0 or np.isnan(a).any():
+        return None
+    return {}
+
+
 def _np_qr(a, p):
     q, r = np.linalg.qr(a)
     return [q, r]
@@ -1005,11 +1012,11 @@ def _cu_svd_recon(a, p):
 
 # Q and R (U, Vh) are only unique up to signs: compared through reconstruction
 reg("qr_recon", 1, _gen_qr, lambda a, p: a, _cu_qr_recon, exact=False, weight=3, tags=("linalg", "qr"))
-reg("svd_recon", 1, _gen_qr, lambda a, p: a, _cu_svd_recon, exact=False, weight=2, tags=("linalg", "qr"))
-reg("svd_s", 1, _gen_qr, lambda a, p: np.linalg.svd(a, compute_uv=False),
+reg("svd_recon", 1, _gen_svd, lambda a, p: a, _cu_svd_recon, exact=False, weight=2, tags=("linalg", "qr"))
+reg("svd_s", 1, _gen_svd, lambda a, p: np.linalg.svd(a, compute_uv=False),
     lambda a, p: _linalg().svd(a, full_matrices=False)[1], exact=False, weight=1, tags=("linalg", "qr"))
 
-reg("svd", 1, _gen_qr, _np_svd, lambda a, p: list(_linalg().svd(a, full_matrices=False)), exact=False,
+reg("svd", 1, _gen_svd, _np_svd, lambda a, p: list(_linalg().svd(a, full_matrices=False)), exact=False,
     nout=3, weight=2, tags=("linalg", "multi", "qr"))
 
 
